@@ -42,6 +42,16 @@ MUTATIONS = [
     ('k-unrounded-advance', 'C03', E,
      "            next_time = round(next_time, self.global_time_precision)\n",
      "            pass\n"),
+    ('c04-one-update-per-pass', 'C04', E, "                        paths.append(path)\n",
+     "                        paths.append(path)\n                        break\n"),
+    ('c12-emit-in-jump', 'C12', E,
+     "                self.global_time = end_time\n                self._advance_quiet_paths(quiet_paths)\n",
+     "                self.global_time = end_time\n                self._advance_quiet_paths(quiet_paths)\n                self._emit_store_data()\n"),
+    ('c12-emit-before-steps', 'C12', E,
+     "        self.run_steps()\n\n        # run the emitter\n        self._emit_configuration()\n        self._emit_store_data()\n",
+     "        self._emit_configuration()\n        self._emit_store_data()\n        self.run_steps()\n"),
+    ('c12-emit-ignores-flag', 'C12', S, "        if self.emit:\n            if self.serializer:",
+     "        if self.emit or self.leaf:\n            if self.serializer:"),
 ]
 
 QUIET = [
